@@ -278,7 +278,7 @@ theorem C17_nonatomic_counterexample :
 /-- **C17_cache_model_meets_spec**: the executable model of histories and forced interleavings
     satisfies the specification on every well-formed case. -/
 theorem C17_cache_model_meets_spec (c : CacheCase) (hwf : cacheWf c = true) :
-    cacheSpec c (cacheModel c) = true :=
-  cacheModel_meets_spec c hwf
+    histSpec c (histModel c) = true :=
+  histModel_meets_spec c hwf
 
 end Attrs.C17
